@@ -60,4 +60,39 @@ def treeMultiplier (adder : List Bool → List Bool → List Bool) (A B : List B
   if A.length == 1 then (B.map (A.headD false && ·)) ++ [false]
   else wallaceReducer adder (partials A B) (A.length + B.length)
 
+/-- `for i, a in enumerate(mult_a): for j, b in enumerate(mult_b): bits[i + j].append(a & b)` -/
+def pushProd (cols : List (List Bool)) (ab : List Bool × List Bool) : List (List Bool) :=
+  (ab.1.zipIdx).foldl (fun cols (a, i) =>
+    (ab.2.zipIdx).foldl (fun cols (b, j) => colPush cols (i + j) (a && b)) cols) cols
+
+def maxList : List Nat → Nat
+  | [] => 0
+  | x :: xs => max x (maxList xs)
+
+/-- Python's `n.bit_length()`: the smallest `k` with `n < 2^k` -/
+def bitLength (n : Nat) : Nat := ((List.range (n + 1)).find? (fun k => n < 2 ^ k)).getD n
+
+/-- `generalized_fma(mult_pairs, add_wires, signed=False, wallace_reducer, adder)`;
+    `fused_multiply_adder(a, b, c)` is `generalized_fma([(a, b)], [c])` -/
+def generalizedFma (adder : List Bool → List Bool → List Bool)
+    (pairs : List (List Bool × List Bool)) (adds : List (List Bool)) : List Bool :=
+  let multMax := maxList (pairs.map fun p => p.1.length + p.2.length - 1)
+  let addMax := maxList (adds.map List.length)
+  let L := max addMax multMax
+  let cols := adds.foldl pushWire (pairs.foldl pushProd (List.replicate L []))
+  let maxResult := (pairs.map fun p => (2 ^ p.1.length - 1) * (2 ^ p.2.length - 1)).sum
+                   + (adds.map fun w => 2 ^ w.length - 1).sum
+  wallaceReducer adder cols (max L (bitLength maxResult))
+
+/-- `carrysave_adder(a, b, c, final_adder)` -/
+def carrysaveAdder (adder : List Bool → List Bool → List Bool) (a b c : List Bool) : List Bool :=
+  let n := max a.length (max b.length c.length)
+  let a := zext a n
+  let b := zext b n
+  let c := zext c n
+  let ps := List.zipWith (fun x yz => xor (xor x yz.1) yz.2) a (List.zip b c)
+  let sc := List.zipWith (fun x yz => (x || yz.1) && (x || yz.2) && (yz.1 || yz.2)) a (List.zip b c)
+  if n == 1 then ps ++ sc ++ [false]
+  else ps.take 1 ++ adder (ps.drop 1) sc
+
 end Pyrtl.Adders
